@@ -281,13 +281,36 @@ type WorldOpts struct {
 	N         int
 	Label     string // key derivation label
 	P2PSigExt bool
+	// Validators is the number of committee members that are validators (the
+	// first ones in key order, as in Neo's standby set); 0 = drawn by
+	// DrawValidators if set, otherwise all of them.
+	Validators int
 	// Prepare, if set, pre-populates the store before the chain is created
 	// (contract states and storages restored from a network dump).
 	Prepare func(s storage.Store)
 }
 
-// NewWorld creates a chain with an n-member committee (all of them validators)
-// and funds the fee payer.
+// DrawValidators, if set (by Run.Sim, from the run's choice source), decides
+// how many of a new world's committee members are validators.
+var DrawValidators func(n int) int
+
+// installWorldDraws lets the run's choice source decide the world dimensions
+// no engine chooses itself: in a quarter of the runs only the first v < n
+// committee members are validators (the committee, not the validator set, is
+// what the contracts' committee and Alphabet witnesses are documented to mean).
+func installWorldDraws(r *Run) {
+	DrawValidators = func(n int) int {
+		if n < 2 || !Chance(r.T, "fewerValidators", 25) {
+			return n
+		}
+		r.Inject("world.fewer_validators_than_committee")
+		r.Fired("world.fewer_validators_than_committee")
+		return 1 + Pick(r.T, "validators", n-1)
+	}
+}
+
+// NewWorld creates a chain with an n-member committee (all or the first few
+// of them validators) and funds the fee payer.
 func NewWorld(o WorldOpts) *World {
 	w := newBareWorld(o)
 	// fund the payer from the validators' genesis GAS
@@ -306,6 +329,13 @@ func newBareWorld(o WorldOpts) *World {
 	if o.Label == "" {
 		o.Label = "committee"
 	}
+	if o.Validators == 0 && DrawValidators != nil {
+		o.Validators = DrawValidators(n)
+	}
+	if o.Validators <= 0 || o.Validators > n {
+		o.Validators = n
+	}
+	nv := o.Validators
 	privs := make([]*keys.PrivateKey, n)
 	for i := range privs {
 		privs[i] = DetKey(fmt.Sprintf("%s/%d", o.Label, i))
@@ -319,7 +349,7 @@ func newBareWorld(o WorldOpts) *World {
 	}
 	cfg := config.Blockchain{ProtocolConfiguration: config.ProtocolConfiguration{
 		Magic: netmode.UnitTestNet, MaxTraceableBlocks: 100000, TimePerBlock: time.Second,
-		StandbyCommittee: sc, ValidatorsCount: uint32(n), VerifyTransactions: true,
+		StandbyCommittee: sc, ValidatorsCount: uint32(nv), VerifyTransactions: true,
 		P2PSigExtensions: o.P2PSigExt,
 	}}
 	var store storage.Store = storage.NewMemoryStore()
@@ -336,7 +366,7 @@ func newBareWorld(o WorldOpts) *World {
 	must(err)
 	go bc.Run()
 	w := &World{BC: bc, N: n, Privs: privs, Pubs: pubs, Magic: cfg.Magic, C: map[string]*Deployed{}, Opts: o, record: RecordJournal, txMeta: map[*transaction.Transaction]*JTx{}, sigMeta: map[*transaction.Transaction]*JTx{}}
-	w.Validator = Multi("validators", smartcontract.GetDefaultHonestNodeCount(n), privs)
+	w.Validator = Multi("validators", smartcontract.GetDefaultHonestNodeCount(nv), privs[:nv])
 	w.Alphabet = Multi("alphabet", n*2/3+1, privs)
 	w.Committee = Multi("committee", n/2+1, privs)
 	w.Payer = Single("payer", DetKey(o.Label+"/payer")).WithScope(transaction.None)
